@@ -234,6 +234,13 @@ func (s *pipeStream[T]) Next(ctx context.Context) (T, error) {
 	case item := <-s.c:
 		return item, nil
 	case <-s.senderDone:
+		// Both this arm and the one above may have been ready, so there may still be items in the
+		// buffer that were sent before the sender closed. Deliver those first.
+		select {
+		case item := <-s.c:
+			return item, nil
+		default:
+		}
 		err := *s.senderErr
 		if err != nil {
 			return zero, err
